@@ -50,42 +50,44 @@ Proof.
   apply IH. intros st' y Hy. apply H. right. exact Hy.
 Qed.
 
-Lemma tie_cut_bytes : forall (data : bytes) (o : opt),
-  Z.of_nat (length data) <= i32_max -> Forall item_left_nz (items (o_bounds o)) ->
-  gen_cut_bytes data o = Ret (match data with
-                              | [] => (Some tt, [])
-                              | _ => walk (o_fallback o) data [] (items (o_bounds o))
-                              end).
+(** the same for a [for] loop whose body leaves the function with [return Err(..)]: [Break] then carries the
+    function's result instead of the output so far *)
+Lemma loopM_walk_for (F : bytes -> bof -> rs (ctrl bytes (option unit))) generic data :
+  forall l, (forall st x, In x l -> F st x = Ret (match piece generic data x with Some o => Next (st ++ o) | None => Break None end)) ->
+  forall st, loopM F l st = Ret (match walk generic data st l with (Some _, a) => Next a | (None, _) => Break None end).
 Proof.
-  intros data o Hn Hnz. cbv beta delta [gen_cut_bytes] iota zeta.
-  destruct data as [|d0 data']; [reflexivity|]. set (data := d0 :: data') in *. cbv iota beta.
-  unfold to_list, iter_ublist.
-  match goal with |- context [loopM ?F _ _] => rewrite (loopM_walk F (o_fallback o) data) end.
-  - cbn [bind]. destruct (walk (o_fallback o) data [] (items (o_bounds o))) as [[[]|] a]; reflexivity.
-  - intros st x Hx. rewrite Forall_forall in Hnz. specialize (Hnz x Hx).
-    destruct x as [b|f]; cbn beta iota; cbn [piece]; [|reflexivity].
-    rewrite (tie_ub_try_into_range b (length data) Hn Hnz). cbn [bind].
-    destruct (try_into_range b (length data)) as [[s e]|] eqn:E; cbn [range_Z fst snd].
-    + assert (Hse : (s <= e <= length data)%nat).
-      { unfold try_into_range in E.
-        destruct (resolve_left (bl b) (Z.of_nat (length data))) as [s0|] eqn:EL; [|discriminate].
-        destruct (resolve_right (br b) (Z.of_nat (length data))) as [e0|] eqn:ER; [|discriminate].
-        destruct (Z.leb_spec e0 s0); [discriminate|]. injection E as <- <-.
-        unfold resolve_left in EL. unfold resolve_right in ER.
-        destruct (bl b) as [x|]; destruct (br b) as [y|];
-          repeat match goal with
-                 | H : (if ?c then None else _) = Some _ |- _ => destruct c eqn:?; [discriminate|]; injection H as <-
-                 | H : Some _ = Some _ |- _ => injection H as <-
-                 end;
-          repeat match goal with H : orb _ _ = false |- _ => apply orb_false_iff in H; destruct H end;
-          repeat match goal with H : (_ <? _) = false |- _ => apply Z.ltb_ge in H end;
-          case_bools; try (cbn [item_left_nz] in Hnz; assert (x <> 0) by (intros ->; apply Hnz; reflexivity)); unfold data in *; cbn [length] in *; lia. }
-      unfold str_between.
-      destruct (Z.leb_spec 0 (Z.of_nat s)); [|lia]. destruct (Z.leb_spec (Z.of_nat s) (Z.of_nat e)); [|lia].
-      destruct (Z.leb_spec (Z.of_nat e) (Z.of_nat (length data))); [|lia]. cbn [andb bind].
-      unfold slice. replace (Z.to_nat (Z.of_nat e - Z.of_nat s)) with (e - s)%nat by lia. rewrite Nat2Z.id. reflexivity.
-    + unfold fallback_for. destruct (bfb b); [reflexivity|]. destruct (o_fallback o); reflexivity.
+  induction l as [|x l IH]; intros H st; cbn [loopM walk]; [reflexivity|].
+  rewrite (H st x (or_introl eq_refl)). destruct (piece generic data x) as [o|]; cbn [bind]; [|reflexivity].
+  apply IH. intros st' y Hy. apply H. right. exact Hy.
 Qed.
+
+(** one step of the loop, whichever way it is written: the piece appended, or the loop left *)
+Ltac cut_bytes_step data Hn Hnz :=
+  let st := fresh "st" in let x := fresh "x" in let Hx := fresh "Hx" in
+  intros st x Hx; rewrite Forall_forall in Hnz; specialize (Hnz x Hx);
+  destruct x as [b|f]; cbn beta iota; cbn [piece]; [|reflexivity];
+  rewrite (tie_ub_try_into_range b (length data) Hn Hnz); cbn [bind];
+  let E := fresh "E" in
+  destruct (try_into_range b (length data)) as [[s e]|] eqn:E; cbn [range_Z fst snd];
+  [ assert (Hse : (s <= e <= length data)%nat);
+    [ unfold try_into_range in E;
+      destruct (resolve_left (bl b) (Z.of_nat (length data))) as [s0|] eqn:EL; [|discriminate];
+      destruct (resolve_right (br b) (Z.of_nat (length data))) as [e0|] eqn:ER; [|discriminate];
+      destruct (Z.leb_spec e0 s0); [discriminate|]; injection E as <- <-;
+      unfold resolve_left in EL; unfold resolve_right in ER;
+      destruct (bl b) as [xl|]; destruct (br b) as [yr|];
+        repeat match goal with
+               | H : (if ?c then None else _) = Some _ |- _ => destruct c eqn:?; [discriminate|]; injection H as <-
+               | H : Some _ = Some _ |- _ => injection H as <-
+               end;
+        repeat match goal with H : orb _ _ = false |- _ => apply orb_false_iff in H; destruct H end;
+        repeat match goal with H : (_ <? _) = false |- _ => apply Z.ltb_ge in H end;
+        case_bools; try (cbn [item_left_nz] in Hnz; assert (xl <> 0) by (intros ->; apply Hnz; reflexivity)); unfold data in *; cbn [length] in *; lia
+    | unfold str_between;
+      destruct (Z.leb_spec 0 (Z.of_nat s)); [|lia]; destruct (Z.leb_spec (Z.of_nat s) (Z.of_nat e)); [|lia];
+      destruct (Z.leb_spec (Z.of_nat e) (Z.of_nat (length data))); [|lia]; cbn [andb bind];
+      unfold slice; replace (Z.to_nat (Z.of_nat e - Z.of_nat s)) with (e - s)%nat by lia; rewrite Nat2Z.id; reflexivity ]
+  | unfold fallback_for; destruct (bfb b); [reflexivity|]; destruct (o_fallback _); reflexivity ].
 
 (** in the terms of the model: *)
 Lemma tie_cut_bytes_model : forall (data : bytes) (o : opt),
@@ -96,7 +98,21 @@ Lemma tie_cut_bytes_model : forall (data : bytes) (o : opt),
                | None => fst r = None
                end.
 Proof.
-  intros data o Hn Hnz Hne. rewrite (tie_cut_bytes data o Hn Hnz). destruct data as [|d0 data']; [contradiction|].
-  eexists. split; [reflexivity|]. rewrite walk_items.
-  destruct (cut_bytes_items (items (o_bounds o)) (o_fallback o) (d0 :: data')); reflexivity.
+  intros data o Hn Hnz Hne. cbv beta delta [gen_cut_bytes] iota zeta.
+  destruct data as [|d0 data']; [contradiction|]. set (data := d0 :: data') in *. cbv iota beta.
+  unfold to_list, iter_ublist.
+  pose proof (walk_items (o_fallback o) data (items (o_bounds o)) []) as Hw. cbn [app] in Hw.
+  first
+  [ (* the items walked by [try_for_each]: a failing step keeps what was written *)
+    match goal with |- context [loopM ?F _ _] => rewrite (loopM_walk F (o_fallback o) data) end;
+    [ cbn [bind]; destruct (walk (o_fallback o) data [] (items (o_bounds o))) as [[[]|] a]; cbn [bind];
+      (eexists; split; [reflexivity|]);
+      destruct (cut_bytes_items (items (o_bounds o)) (o_fallback o) data); first [exact Hw | discriminate Hw | reflexivity]
+    | cut_bytes_step data Hn Hnz ]
+  | (* the same walk written as a [for] loop with [return Err(..)] *)
+    match goal with |- context [loopM ?F _ _] => rewrite (loopM_walk_for F (o_fallback o) data) end;
+    [ cbn [bind]; destruct (walk (o_fallback o) data [] (items (o_bounds o))) as [[[]|] a]; cbn [bind];
+      (eexists; split; [reflexivity|]);
+      destruct (cut_bytes_items (items (o_bounds o)) (o_fallback o) data); first [exact Hw | discriminate Hw | reflexivity]
+    | cut_bytes_step data Hn Hnz ] ].
 Qed.
